@@ -62,4 +62,9 @@ Definition right_elem (right_row_contiguous : bool) (mem : Z -> T) (b0 right_str
 Definition symm_mm_spec (row_lower_col_upper right_row_contiguous : bool) (M : Z) (mem : Z -> T) (left_ptr left_offset b0 right_stride : Z) (i j : Z) : T :=
   let e := if row_lower_col_upper then SymLo else SymUp in
   zsum M (fun k => omul O (mem (left_ptr + index e 0 0 i k left_offset)) (right_elem right_row_contiguous mem b0 right_stride k j)).
+
+(* ---- the derivative statement matmul_band records for row i when the right-hand vector is active *)
+Definition band_statement (row_major : bool) (L U dim : Z) (mem : Z -> T) (left_ptr off right_index incx : Z) (i : Z) : list (T * Z) :=
+  let js := band_j_start i L in let je := band_j_end i U dim in
+  push_dep mem (band_grad_start right_index js incx) (left_ptr + band_index_start row_major i js off) (je - js) (band_grad_stride incx) (band_index_stride row_major off).
 End Band.
